@@ -20,7 +20,7 @@
 EXTENDS FinamBase, TLC
 
 Info(t, g, u, m, f) == [time |-> t, grid |-> g, units |-> u, mask |-> m, foo |-> f]
-GridOK(i) == (i.mask \in {"M", "N", "E"}) => i.grid \in {"g", "g2", "g3", "g4", "h", "gc", "l", "lr"}     \* a fixed mask presupposes a structured grid
+GridOK(i) == (i.mask \in {"M", "N", "E", "X"}) => i.grid \in {"g", "g2", "g3", "g4", "h", "gc", "l", "lr"}     \* a fixed mask presupposes a structured grid
 PInfos == {i \in {Info(t, g, u, m, f) : t \in {"none", "t"}, g \in {"none", "g", "g2", "g3", "h", "gc", "nogrid", "l"},
                     u \in {"none", "m", "km", "s"}, m \in {"flex", "nomask", "M", "N", "E", "E0"}, f \in {"absent", "none", "v"}} : GridOK(i)}
 CInfos == {i \in {Info(t, g, u, m, f) : t \in {"none", "t"}, g \in {"none", "g", "g2", "g4", "h", "gc", "nogrid", "lr"},
@@ -29,7 +29,9 @@ CInfos == {i \in {Info(t, g, u, m, f) : t \in {"none", "t"}, g \in {"none", "g",
 SameLocations(a, b) == a = b \/ {a, b} \subseteq {"g", "g2", "g3", "g4"} \/ {a, b} \subseteq {"l", "lr"}
 Dim(u) == CASE u = "s" -> "time" [] u \in {"ms", "kms"} -> "length*time" [] u = "s2" -> "time2" [] OTHER -> "length"
 TimesS(u) == CASE u = "m" -> "ms" [] u = "km" -> "kms" [] u = "s" -> "s2" [] OTHER -> u
-Specified(m) == m \in {"M", "N", "E", "E0"}
+(* "X": a third fixed mask, different from M and N (what the producer's mask ARRAY means when the very same *)
+(* object is handed to a consumer whose grid stores the same cells in another order)                        *)
+Specified(m) == m \in {"M", "N", "E", "E0", "X"}
 NormMask(m) == IF m = "E0" THEN "E" ELSE m
 
 (* masks_compatible *)
